@@ -25,28 +25,41 @@ Proof. intros (N1 & T1 & C1) (N2 & T2 & C2). split; [congruence|]. split; [congr
 
 Definition Sh (w0 w : world) : Prop :=
   (forall j x, w_nodes w j = Some x -> exists x0, w_nodes w0 j = Some x0 /\ srel x0 x) /\
-  (forall j, w_nodes w0 j <> None -> w_nodes w j <> None).
+  (forall j, w_nodes w0 j <> None -> w_nodes w j <> None) /\
+  w_next w = w_next w0.
 
 Lemma Sh_refl w : Sh w w.
 Proof. split; [|auto]. intros j x H. exists x. split; [exact H|apply srel_refl]. Qed.
 Lemma Sh_trans a b c : Sh a b -> Sh b c -> Sh a c.
 Proof.
-  intros (H1 & E1) (H2 & E2). split; [|auto]. intros j x Hx.
+  intros (H1 & E1 & N1) (H2 & E2 & N2). split; [|split; [auto|congruence]]. intros j x Hx.
   destruct (H2 _ _ Hx) as (x1 & Hx1 & R2). destruct (H1 _ _ Hx1) as (x0 & Hx0 & R1).
   exists x0. split; [exact Hx0|eapply srel_trans; eauto].
 Qed.
 
-Lemma Sh_nodes_eq w0 w w' : (forall x, w_nodes w' x = w_nodes w x) -> Sh w0 w -> Sh w0 w'.
-Proof. intros E (F & G). split; [intros j x Hx; rewrite E in Hx; exact (F _ _ Hx)|intros j Hj; rewrite E; auto]. Qed.
+Lemma Sh_nodes_eq w0 w w' : (forall x, w_nodes w' x = w_nodes w x) -> w_next w' = w_next w -> Sh w0 w -> Sh w0 w'.
+Proof.
+  intros E En (F & G & Nx). split; [intros j x Hx; rewrite E in Hx; exact (F _ _ Hx)|].
+  split; [intros j Hj; rewrite E; auto|congruence].
+Qed.
 
 Lemma Sh_wset w0 w i x : Sh w0 w -> (exists n0, w_nodes w0 i = Some n0 /\ srel n0 x) -> Sh w0 (wset w i x).
 Proof.
-  intros (F & G) Hx. split.
+  intros (F & G & Nx) Hx. split; [|split; [|exact Nx]].
   - intros j y Hy. destruct (N.eq_dec j i) as [->|Hne].
     + rewrite nodes_wset_eq in Hy. injection Hy as <-. exact Hx.
     + rewrite nodes_wset_neq in Hy by exact Hne. exact (F _ _ Hy).
   - intros j Hj. destruct (N.eq_dec j i) as [->|Hne]; [rewrite nodes_wset_eq; discriminate|].
     rewrite nodes_wset_neq by exact Hne. auto.
+Qed.
+
+(* nothing is allocated at or above w_next *)
+Definition Fresh (w : world) : Prop := forall i, w_next w <= i -> w_nodes w i = None.
+
+Lemma Sh_fresh w0 w : Sh w0 w -> Fresh w0 -> Fresh w.
+Proof.
+  intros (F & _ & Nx) H i Hi. destruct (w_nodes w i) as [x|] eqn:E; [|reflexivity].
+  destruct (F _ _ E) as (x0 & E0 & _). rewrite H in E0 by lia. discriminate.
 Qed.
 
 (* ------------------------------------------------------------------ what is inherited *)
@@ -58,7 +71,7 @@ Definition AllOrd (v : N) (w : world) : Prop :=
 
 Lemma Sh_nm w0 w j : Sh w0 w -> w_nodes w0 j <> None -> nm w j = nm w0 j.
 Proof.
-  intros (F & G) Hj. unfold nm. destruct (w_nodes w j) as [x|] eqn:E; [|exfalso; exact (G j Hj E)].
+  intros (F & G & _) Hj. unfold nm. destruct (w_nodes w j) as [x|] eqn:E; [|exfalso; exact (G j Hj E)].
   destruct (F _ _ E) as (x0 & E0 & (Nx & _)). rewrite E0. exact Nx.
 Qed.
 
@@ -67,7 +80,7 @@ Proof.
   intros S A i n Hn. destruct (proj1 S _ _ Hn) as (n0 & Hn0 & (_ & Ty & Sub)).
   destruct (A _ _ Hn0) as (items0 & HI0 & HO0). destruct (items_of_names w0 _ _ HI0) as (EN0 & Hal0).
   assert (Hal : forall k, In k (elems (n_content n)) -> w_nodes w k <> None).
-  { intros k Hk. apply (proj2 S). apply Hal0. eapply subseq_in; eauto. }
+  { intros k Hk. apply (proj1 (proj2 S)). apply Hal0. eapply subseq_in; eauto. }
   destruct (items_of_exists w _ Hal) as (items & HI). exists items. split; [exact HI|].
   rewrite Ty. eapply (ordered_subseq T); [|exact HO0].
   destruct (items_of_names w _ _ HI) as (EN & _). rewrite EN, EN0.
@@ -83,7 +96,7 @@ Definition shp {A} (w0 : world) (m : W A) : Prop := forall w r w', Sh w0 w -> m 
 Lemma shp_ro {A} w0 (m : W A) : ro m -> shp w0 m.
 Proof. intros R w r w' F H. apply R in H. subst. exact F. Qed.
 Lemma shp_nfp {A} w0 (m : W A) : nfp m -> shp w0 m.
-Proof. intros Hn w r w' F H. destruct (Hn _ _ _ H) as (E & _). exact (Sh_nodes_eq _ _ _ E F). Qed.
+Proof. intros Hn w r w' F H. destruct (Hn _ _ _ H) as (E & En & _). exact (Sh_nodes_eq _ _ _ E En F). Qed.
 Lemma shp_bind {A B} w0 (m : W A) (k : A -> W B) : shp w0 m -> (forall a, shp w0 (k a)) -> shp w0 (wbind m k).
 Proof.
   intros Hm Hk w r w' F H. apply wbind_inv in H as [(a & w1 & H1 & H2) | (e & H1 & _)].
